@@ -8,13 +8,6 @@ source of src/clikit/ui/components/exception_trace.py with `ast`:
 import ast
 
 
-def _class(tree, name, rel, api):
-    for n in tree.body:
-        if isinstance(n, ast.ClassDef) and n.name == name:
-            return n
-    raise api.P.Untranslatable("%s: class %s not found" % (rel, name))
-
-
 def _chars(s):
     def one(ch):
         if ch == "'":
@@ -35,60 +28,119 @@ THEME_KEYS = [("TOKEN_DEFAULT", "tokenDefault"), ("TOKEN_COMMENT", "tokenComment
 def generate(api):
     tree, rel = api.parse("ui/components/exception_trace.py")
     U = api.P.Untranslatable
-    hl = _class(tree, "Highlighter", rel, api)
-    strs, theme, ui = {}, None, None
-    for n in hl.body:
-        if isinstance(n, ast.Assign) and len(n.targets) == 1 and isinstance(n.targets[0], ast.Name):
-            name = n.targets[0].id
-            if isinstance(n.value, ast.Constant) and isinstance(n.value.value, str):
-                strs[name] = n.value.value
-            elif name == "DEFAULT_THEME" and isinstance(n.value, ast.Dict):
-                theme = {}
-                for k, v in zip(n.value.keys, n.value.values):
-                    if not (isinstance(k, ast.Name) and isinstance(v, ast.Constant) and isinstance(v.value, str)):
-                        raise U("%s: DEFAULT_THEME entry not of the form NAME: 'style'" % rel)
-                    theme[k.id] = v.value
-            elif name == "UI" and isinstance(n.value, ast.Dict):
-                ui = {}
-                for k, v in zip(n.value.keys, n.value.values):
-                    if not (isinstance(k, ast.Constant) and isinstance(k.value, bool) and isinstance(v, ast.Dict)):
-                        raise U("%s: UI entry not of the form bool: {...}" % rel)
-                    ui[k.value] = dict((kk.value, vv.value) for kk, vv in zip(v.keys, v.values))
-    if theme is None or ui is None:
-        raise U("%s: Highlighter.DEFAULT_THEME / UI not found" % rel)
+    P = api.P
+    hl = P.find_class(tree, "Highlighter", rel)
+    # class-level tables: every name is bound exactly once in the class body, nothing assigns `X.NAME` / `X.NAME[...]`
+    strs = {k: v for k, v in P.class_literals(tree, "Highlighter", rel).items() if isinstance(v, str)}
+    theme, ui = None, None
+    for name in ("DEFAULT_THEME", "UI"):
+        sts = [n for n in hl.body if isinstance(n, ast.Assign) and len(n.targets) == 1 and isinstance(n.targets[0], ast.Name)
+               and n.targets[0].id == name]
+        if len(sts) != 1 or P._other_bindings(hl.body, name, sts[0]) or not isinstance(sts[0].value, ast.Dict):
+            raise U("%s: Highlighter.%s is not one dict literal" % (rel, name))
+        n = sts[0]
+        if name == "DEFAULT_THEME":
+            theme = {}
+            for k, v in zip(n.value.keys, n.value.values):
+                if not (isinstance(k, ast.Name) and isinstance(v, ast.Constant) and isinstance(v.value, str)):
+                    raise U("%s: DEFAULT_THEME entry not of the form NAME: 'style'" % rel)
+                if k.id in theme:
+                    raise U("%s: DEFAULT_THEME has the key %s twice" % (rel, k.id))
+                theme[k.id] = v.value
+        else:
+            ui = {}
+            for k, v in zip(n.value.keys, n.value.values):
+                if not (isinstance(k, ast.Constant) and isinstance(k.value, bool) and isinstance(v, ast.Dict)) or k.value in ui:
+                    raise U("%s: UI entry not of the form bool: {...}" % rel)
+                if not all(isinstance(kk, ast.Constant) and isinstance(kk.value, str) and isinstance(vv, ast.Constant)
+                           and isinstance(vv.value, str) for kk, vv in zip(v.keys, v.values)) \
+                        or len(set(kk.value for kk in v.keys)) != len(v.keys):
+                    raise U("%s: UI[%s] is not a dict of string literals" % (rel, k.value))
+                ui[k.value] = dict((kk.value, vv.value) for kk, vv in zip(v.keys, v.values))
+    for x in ast.walk(tree):
+        if isinstance(x, ast.Attribute) and x.attr in ("DEFAULT_THEME", "UI") and isinstance(x.ctx, (ast.Store, ast.Del)):
+            raise U("%s:%d: Highlighter.%s is rebound" % (rel, x.lineno, x.attr))
+        if isinstance(x, ast.Subscript) and isinstance(x.ctx, (ast.Store, ast.Del)) and isinstance(x.value, ast.Attribute) \
+                and x.value.attr in ("DEFAULT_THEME", "UI"):
+            raise U("%s:%d: an entry of Highlighter.%s is assigned" % (rel, x.lineno, x.value.attr))
+        if isinstance(x, ast.Attribute) and isinstance(x.value, ast.Attribute) and x.value.attr in ("DEFAULT_THEME", "UI") \
+                and x.attr not in ("copy", "get", "keys", "values", "items"):
+            raise U("%s:%d: Highlighter.%s.%s(...): the table may be changed at run time" % (rel, x.lineno, x.value.attr, x.attr))
     for py, _ in THEME_KEYS:
         if py not in theme or py not in strs:
             raise U("%s: theme key %s missing" % (rel, py))
+    if len(set(strs[py] for py in theme)) != len(theme):
+        raise U("%s: two token classes of DEFAULT_THEME have the same key string" % rel)
     for b in (False, True):
         if b not in ui or sorted(ui[b]) != ["arrow", "delimiter"]:
             raise U("%s: Highlighter.UI[%s] must have arrow and delimiter" % (rel, b))
+    # the instance takes the tables as they are
+    hinit = P.find_function(tree, "Highlighter", "__init__", rel, decorators=())
+    P.Template("""
+        def __init__(self, V_utf8=True):
+            self._theme = self.DEFAULT_THEME.copy()
+            self._ui = self.UI[V_utf8]
+    """).match([hinit], rel, "Highlighter.__init__")
+    for attr in ("_theme", "_ui"):
+        for x in ast.walk(hl):
+            if isinstance(x, ast.Attribute) and x.attr == attr and isinstance(x.ctx, (ast.Store, ast.Del)) \
+                    and not any(x is y for y in ast.walk(hinit)):
+                raise U("%s:%d: Highlighter.%s is rebound outside __init__" % (rel, x.lineno, attr))
+            if isinstance(x, ast.Subscript) and isinstance(x.ctx, (ast.Store, ast.Del)) and isinstance(x.value, ast.Attribute) \
+                    and x.value.attr == attr:
+                raise U("%s:%d: an entry of Highlighter.%s is assigned" % (rel, x.lineno, attr))
 
-    # code_snippet(self, source, line, lines_before=2, lines_after=2)
-    cs = api.P.find_function(tree, "Highlighter", "code_snippet", rel)
+    # code_snippet(self, source, line, lines_before=2, lines_after=2): the whole body is matched
+    cs = P.find_function(tree, "Highlighter", "code_snippet", rel, decorators=())
     args = [a.arg for a in cs.args.args]
-    if args != ["self", "source", "line", "lines_before", "lines_after"] or len(cs.args.defaults) != 2:
+    if args != ["self", "source", "line", "lines_before", "lines_after"] or len(cs.args.defaults) != 2 \
+            or cs.args.vararg or cs.args.kwarg or cs.args.kwonlyargs:
         raise U("%s: code_snippet signature changed: %s" % (rel, args))
+    if not all(isinstance(d, ast.Constant) and isinstance(d.value, int) and not isinstance(d.value, bool) and d.value >= 0
+               for d in cs.args.defaults):
+        raise U("%s: code_snippet: the defaults are not natural numbers" % rel)
     dflt = [d.value for d in cs.args.defaults]
-    # line_numbers: max_line_length = max(3, len(str(len(lines))))
-    ln = api.P.find_function(tree, "Highlighter", "line_numbers", rel)
-    minw = None
-    for n in ast.walk(ln):
-        if (isinstance(n, ast.Assign) and getattr(n.targets[0], "id", None) == "max_line_length"
-                and isinstance(n.value, ast.Call) and getattr(n.value.func, "id", None) == "max"
-                and isinstance(n.value.args[0], ast.Constant)):
-            minw = n.value.args[0].value
-    if not isinstance(minw, int):
+    P.Template("""
+        V_lines = self.highlighted_lines(source)
+        V_lines = self.line_numbers(V_lines, line)
+        V_offset = line - lines_before - 1
+        V_offset = max(V_offset, 0)
+        V_length = lines_after + lines_before + 1
+        V_lines = V_lines[V_offset:V_offset + V_length]
+        return V_lines
+    """).match(cs.body, rel, "Highlighter.code_snippet")
+    # line_numbers: max_line_length = max(3, len(str(len(lines)))) - the one binding of that variable
+    ln = P.find_function(tree, "Highlighter", "line_numbers", rel, decorators=())
+    if [a.arg for a in ln.args.args][:2] != ["self", "lines"]:
+        raise U("%s: line_numbers(self, lines, ...) expected" % rel)
+    first = P.strip_doc(ln.body)[0] if P.strip_doc(ln.body) else None
+    bw = P.Template("max_line_length = max(CONST_w, len(str(len(lines))))").try_match([first] if first is not None else [])
+    stores = [x for x in ast.walk(ln) if isinstance(x, ast.Name) and x.id in ("max_line_length", "lines", "max", "len", "str")
+              and isinstance(x.ctx, (ast.Store, ast.Del))]
+    if bw is None or len(stores) != 1:
+        raise U("%s: line_numbers: max_line_length = max(<int>, len(str(len(lines)))) as the first statement and only "
+                "binding not found" % rel)
+    minw = bw["w"].value
+    if not isinstance(minw, int) or isinstance(minw, bool):
         raise U("%s: line_numbers: max_line_length = max(<int>, ...) not found" % rel)
-    # _render_snippet: code_snippet(frame.file_content, frame.lineno, 4, 4)
-    rs = api.P.find_function(tree, "ExceptionTrace", "_render_snippet", rel)
+    # _render_snippet: code_snippet(frame.file_content, frame.lineno, 4, 4) - the one mention of code_snippet in that method
+    rs = P.inline_literals(P.find_function(tree, "ExceptionTrace", "_render_snippet", rel, decorators=()), tree, "ExceptionTrace")
+    mine = [n for n in ast.walk(rs) if isinstance(n, ast.Call) and isinstance(n.func, ast.Attribute) and n.func.attr == "code_snippet"]
+    named = [n for n in ast.walk(rs) if isinstance(n, ast.Attribute) and n.attr == "code_snippet"
+             or isinstance(n, ast.Constant) and n.value == "code_snippet"]
     win = None
-    for n in ast.walk(rs):
-        if isinstance(n, ast.Call) and isinstance(n.func, ast.Attribute) and n.func.attr == "code_snippet":
-            extra = n.args[2:]
-            if len(extra) == 2 and all(isinstance(a, ast.Constant) and isinstance(a.value, int) for a in extra):
-                win = [a.value for a in extra]
+    if len(named) == 1 and len(mine) == 1:
+        n = mine[0]
+        extra = n.args[2:]
+        if (len(n.args) == 4 and not n.keywords and isinstance(n.func.value, ast.Call)
+                and ast.unparse(n.func.value.func) == "Highlighter"
+                and [ast.unparse(a) for a in n.args[:2]] == ["frame.file_content", "frame.lineno"]
+                and all(isinstance(a, ast.Constant) and isinstance(a.value, int) and not isinstance(a.value, bool)
+                        and a.value >= 0 for a in extra)):
+            win = [a.value for a in extra]
     if win is None:
-        raise U("%s: _render_snippet: code_snippet(.., .., <int>, <int>) not found" % rel)
+        raise U("%s: _render_snippet: exactly one Highlighter(...).code_snippet(frame.file_content, frame.lineno, <int>, <int>) "
+                "not found" % rel)
 
     out = [api.HEADER + "namespace Clikit.Gen.C20\n"]
     for py, lean in THEME_KEYS:
